@@ -212,12 +212,17 @@ def bfs_seed(topo):
 
 
 # ---- recording ------------------------------------------------------------------------------------------------------
-KEEP_ON_LIVELOCK = 400      # events of a run that exhausted its step budget handed to TLC (the verdict is Terminates anyway)
+KEEP_ON_LIVELOCK = 120      # events of a run that exhausted its step budget handed to TLC (the verdict is Terminates anyway)
+
+
+LIVELOCKS = [0]
+MAX_LIVELOCKS = 10          # after that many runs without end the remaining generation is skipped (the check fails anyway)
 
 
 def mk_trace(rig, evs, cache0, pend0, tree, livelock, meta):
     if livelock:
         evs = evs[:KEEP_ON_LIVELOCK]
+        LIVELOCKS[0] += 1
     return dict(tree=tree, livelock=livelock, topo=rig.topo, cache0=cache0, pend0=pend0, evs=evs, meta=meta,
                 script=[["Send", e["node"], e["k"], e["dnet"], e["dmac"], e["hops"], e["re"]] if e["n"] == "Send"
                         else ["Rx", e["l"], e["i"]] for e in evs])
@@ -293,7 +298,7 @@ def _validate_file(args):
     return path, n, res
 
 
-def validate(chk, traces, on_verdict, per_file=150):
+def validate(chk, traces, on_verdict, per_file=400):
     for i, t in enumerate(traces):
         t["tid"] = i + 1
     wd = tlc.workdir("trrouter")
@@ -301,22 +306,22 @@ def validate(chk, traces, on_verdict, per_file=150):
         jobs = []
         # balance the files by number of events
         files = [[]]
-        nev = 0
+        nbytes = 0
         for t in traces:
-            if files[-1] and (len(files[-1]) >= per_file or nev > 40000):
+            line = json.dumps({"tid": t["tid"], "tree": t["tree"], "livelock": t["livelock"], "nodes": t["topo"]["nodes"],
+                               "lans": t["topo"]["lans"], "cache0": t["cache0"], "pend0": t["pend0"], "evs": t["evs"]})
+            if files[-1] and (len(files[-1]) >= per_file or nbytes + len(line) > 4000000):
                 files.append([])
-                nev = 0
-            files[-1].append(t)
-            nev += len(t["evs"])
-        for k, ts in enumerate(files):
-            if not ts:
+                nbytes = 0
+            files[-1].append(line)
+            nbytes += len(line)
+        for k, lines in enumerate(files):
+            if not lines:
                 continue
             p = os.path.join(wd, "traces_%d.ndjson" % k)
             with open(p, "w") as f:
-                for t in ts:
-                    f.write(json.dumps({"tid": t["tid"], "tree": t["tree"], "livelock": t["livelock"],
-                                        "nodes": t["topo"]["nodes"], "lans": t["topo"]["lans"], "cache0": t["cache0"], "pend0": t["pend0"], "evs": t["evs"]}) + "\n")
-            jobs.append((p, len(ts)))
+                f.write("\n".join(lines) + "\n")
+            jobs.append((p, len(lines)))
         nw = max(1, min(6, int(os.environ.get("VERIF_TLC_WORKERS", "16")) // 2))
         with cf.ThreadPoolExecutor(max_workers=nw) as ex:
             results = list(ex.map(_validate_file, jobs))
@@ -539,6 +544,8 @@ def main(tier, seed):
     ntopo = 120 if thorough else 16
     nmsg = 0
     for tno in range(ntopo):
+        if LIVELOCKS[0] >= MAX_LIVELOCKS:
+            break
         trng = random.Random(rng.randrange(1 << 30))
         nn = 2 + tno % 7
         topo = random_tree(trng, nn)
@@ -548,6 +555,8 @@ def main(tier, seed):
         # (i) every combination from cold caches (fresh stacks), replies from every recipient
         cold = allc if thorough or len(allc) <= 60 else trng.sample(allc, 60)
         for (s, k, dnet, dmac) in cold:
+            if LIVELOCKS[0] >= MAX_LIVELOCKS:
+                break
             order = trng.choice(["fifo", "random"])
             sd = trng.randrange(1 << 30)
             ts = run_messages(topo, [(s, k, dnet, dmac, 255)], order, random.Random(sd), meta=dict(meta, cache="cold", rng=sd))
@@ -576,6 +585,8 @@ def main(tier, seed):
     cycs = [("triangle", TRIANGLE), ("parallel", PARALLEL), ("lollipop", LOLLIPOP)] + (
         [("square", SQUARE), ("ring5", RING5), ("theta", THETA), ("parallel3", PARALLEL3), ("lollipop2", LOLLIPOP2)] if thorough else [("theta", THETA)])
     for cname, topo in cycs:
+        if LIVELOCKS[0] >= 2 * MAX_LIVELOCKS:
+            break
         seedtab = bfs_seed(topo)
         for s in stations(topo):
             for (k, dnet, dmac) in combos(topo, s, rng):
